@@ -50,6 +50,9 @@ func Lib() *ty.Env {
 	add("SR", "", ty.St(f("R", ty.N(23)), f("L", ty.N(5)), f("M", ty.N(25)), f("N", ty.N(0))), false)                                    // 27
 	// field names that start with an underscore (unexported, but not blank)
 	add("UF", "", ty.St(f("_id", b("int")), f("_tags", ty.Sl(b("string"))), f("X", b("int")), f("_p", ty.P(b("int")))), true) // 28
+	// named byte and rune types: slices of them are not []byte / []rune
+	add("NU8", "", b("uint8"), false) // 29
+	add("NR", "", b("int32"), false)  // 30
 	return e
 }
 
